@@ -163,8 +163,8 @@ theorem C17_xz_run_compresses_partial (c : XzW.Cfg) (hc : XzW.CfgOk c) (hd : 655
   potential 299 bits instead of 1094); the per-chunk overhead and the ring wraps are paid from the slope n/500.  This
   gives `n/500 + 112` for HashTable4 and `n/500 + 128` for BinaryTree — **clause 1 as stated, for the LZMA2 writer model
   with either match finder, every n, every byte value, every valid configuration with a dictionary ≥ 64 KiB**.  For the
-  xz writer model (one block) the container adds 63 bytes plus the check: inside 128 + 64 for no check, CRC32 and CRC64
-  (SHA-256: 207).  With the first potential the dictionary bound goes down to 32 KiB (constants 213 / 229); below that the
+  xz writer model (one block) the container adds 63 bytes plus the check: inside 128 + 64 for no check, CRC32 and CRC64;
+  with the constant 97 of the third development (irregular operations charged by kind) also for SHA-256.  With the first potential the dictionary bound goes down to 32 KiB (constants 213 / 229); below that the
   cost of the once-per-revolution ring-end operations would have to be bounded by their real cost (measured: ≈ 2.5 bytes;
   charged: 57), which is what keeps dictionaries < 32 KiB `measured only`. -/
 
@@ -205,6 +205,24 @@ open W2 in
 theorem C17_run_compresses_partial_32k_bintree (c : Cfg) (hc : CfgOk c) (hd : 32768 ≤ c.dictCap) (b : UInt8) (n : Nat) :
     (RunCost.lzma2OfRunBT c b n).size ≤ n / 500 + 229 :=
   RunCost.run_compresses_229_bt_d15 c hc hd b n
+
+open W2 in
+/-- per-kind charging of the irregular operations (literal 9 decisions, rep0 14, others ≤ 18): **97 for HashTable4**, which
+    is tight for this method at n = 0, and 117 for BinaryTree -/
+theorem C17_run_compresses_hashtable4_97 (c : Cfg) (hc : CfgOk c) (hd : 65536 ≤ c.dictCap) (b : UInt8) (n : Nat) :
+    (RunCost.lzma2OfRun c b n).size ≤ n / 500 + 97 :=
+  RunCost.run_compresses_97 c hc hd b n
+
+open W2 in
+theorem C17_run_compresses_bintree_117 (c : Cfg) (hc : CfgOk c) (hd : 65536 ≤ c.dictCap) (b : UInt8) (n : Nat) :
+    (RunCost.lzma2OfRunBT c b n).size ≤ n / 500 + 117 :=
+  RunCost.run_compresses_117_bt c hc hd b n
+
+/-- **clause 1 for the xz writer model (one block, HashTable4) with ANY check, SHA-256 included: inside 128 + 64** -/
+theorem C17_xz_run_compresses_any_check (c : XzW.Cfg) (hc : XzW.CfgOk c) (hd : 65536 ≤ c.w2.dictCap) (b : UInt8) (n : Nat)
+    (hblk : n ≤ c.blockSize) (hn : n < 2 ^ 40) :
+    (XzW.run c HT.HT4 (HT.St.new c.w2.dictCap c.w2.bufSize) [RunCost.runOf b n]).size ≤ n / 500 + 128 + 64 :=
+  RunCost.xz_run_compresses_full c hc hd b n hblk hn
 
 /-- the hypotheses are satisfiable: CRC64 (flags 4) has an 8-byte check -/
 example : (Xz.checkSize 4).getD 0 ≤ 17 := by decide
